@@ -100,12 +100,12 @@ struct Batch {
 
 fn batches(tier_quick: bool, seed: u64) -> Vec<Batch> {
     let mut rng = SplitMix64::new(seed).fork(0xC14);
-    let n_random = if tier_quick { 3_000 } else { 10_000 };
+    let n_random = if tier_quick { 3_000 } else { 400_000 };
     let mut out = Vec::new();
     for op in OPS {
         for &(a, b) in &DOMAINS {
             let xs = coordinates(a, b, &mut rng, n_random);
-            let seeds: u64 = if op == "CompleteOneTailedNormalCorrection" { if tier_quick { 4 } else { 32 } } else { 1 };
+            let seeds: u64 = if op == "CompleteOneTailedNormalCorrection" { if tier_quick { 4 } else { 256 } } else { 1 };
             for s in 0..seeds {
                 let xs = if s == 0 { xs.clone() } else { xs.iter().cloned().take(60 + 200).collect() };
                 for chunk in xs.chunks(BATCH) {
@@ -357,7 +357,7 @@ fn initial(rep: &Reporter) {
     let sizes = [0u32, 1, 2, 7, 50];
     for &n in &sizes {
         for dim in 0..=6usize {
-            for s in 0..rep.tier.pick(3u64, 24u64) {
+            for s in 0..rep.tier.pick(3u64, 200u64) {
                 let seed = rng.next_u64() ^ s;
                 // pre-existing population must stay untouched below the new one
                 let prior: Vec<Vec<f64>> = vec![vec![0.25; dim]];
